@@ -90,6 +90,27 @@ def showErr : Err → String
 
 def parseNat? (s : String) : Option (Option Nat) := parseOpt String.toNat? s
 
+def showOKind : OKind → String
+  | .core => "switch" | .edge => "switch" | .router => "router" | .pc => "computer"
+
+def showOffice (base : Nat) (inv : OfficeInv) : String :=
+  let ip (o : Nat) : String := s!"192.168.{base}.{o}"
+  let nodeLines := inv.nodes.map fun n =>
+    s!"onode {n.name} {showOKind n.kind} {showOpt ip n.octet} {if n.gateway then ip 1 else "-"}"
+  let linkLines := inv.links.map fun l => s!"olink {l.a} {l.pa} {l.b} {l.pb} {l.bandwidth}"
+  " | ".intercalate (nodeLines ++ linkLines)
+
+def showOErr : OErr → String
+  | .ipRange => "error ipRange" | .ipStartSmall => "error ipStartSmall" | .unboundRouter => "error unboundRouter"
+
+def parseOffice : List String → Option OfficeCfg
+  | [lan, base, start, n, router, bw] =>
+    match base.toNat?, start.toNat?, n.toNat?, parseOpt parseBool router, parseNat? bw with
+    | some base, some start, some n, some router, some bw =>
+      some { lanName := lan, subnetBase := base, ipStart := start, numPcs := n, includeRouter := router, bandwidth := bw }
+    | _, _, _, _, _ => none
+  | _ => none
+
 def step (s : St) : List String → St × String
   | ["node", kind, host, st, sud, sdd, dns, gw, ip, mask, np] =>
     match parseKind kind, parseState st, parseNat? sud, parseNat? sdd, parseOpt parseIp dns, parseOpt parseIp gw,
@@ -171,6 +192,17 @@ def step (s : St) : List String → St × String
         | .ok inv => showInventory inv
         | .error e => showErr e)
   | ["declared"] => (s, showInventory (declared s.scenario))
+  -- office-lan node set: `office-build|office-declared <lan> <subnet_base> <ip start> <num_pcs> <include_router -|0|1> <bandwidth|->`
+  | "office-build" :: args =>
+    match parseOffice args with
+    | some c => (s, match officeBuild c with
+        | .ok inv => showOffice c.subnetBase inv
+        | .error e => showOErr e)
+    | none => (s, "bad-op")
+  | "office-declared" :: args =>
+    match parseOffice args with
+    | some c => (s, showOffice c.subnetBase (officeDeclared c))
+    | none => (s, "bad-op")
   -- episode schedule: `sched-entry <episode> <file>*`, `sched-file <name>`, then `sched <n>` answers the names joined for episode n
   | "sched-entry" :: e :: names =>
     match e.toNat? with
